@@ -471,7 +471,24 @@ func safeIdx(s []string, i int) string {
 	return "<none>"
 }
 
+// c10OpenFinding replays the recorded, unrepaired defect: a tuple assignment stores its targets right to left
+func (c *Ctx) c10OpenFinding() {
+	const id = "tuple-assignment-same-key"
+	src := "func run() {\nm := map[string]int{}\nm[\"k\"], m[\"k\"] = 1, 2\ni, j := 3, 3\nn := map[int]int{}\nn[i], n[j] = 10, 20\nprintln(m[\"k\"], n[3])\n}\nrun()\n"
+	out, err := runScript(src)
+	c.Rep.Oracle["open-finding-witness"]++
+	if err == nil && out == "2 20\n" {
+		return
+	}
+	if f, ok := c.Findings[id]; ok {
+		c.Rep.Known = append(c.Rep.Known, id+": "+f.What+" (witness prints "+strings.TrimSpace(out)+", Go 2 20)")
+		return
+	}
+	c.Rep.Violate(Violation{Kind: "oracle", Cut: "open-finding-witness", Input: src, Impl: out, Oracle: "2 20"})
+}
+
 func runC10(c *Ctx) error {
+	c.c10OpenFinding()
 	c.Rep.Rule = "histories of set/delete/get/len/iter/next over pools of 2..12 keys (string, int, float64, bool keys) through the host Value API, compared line by line (answers and the internal ordered key list) with the Lean model, and against a native Go map + the range contract; generated scripts (literals, make, nil map, m[k], op=, delete, comma-ok, len, range with and without mutation) against native expectations; distinct = distinct history/script; non-trivial = more than 5 operations"
 	// corpus: the delete-then-reinsert history that used to visit a key twice
 	kinds := c10Kinds()
